@@ -358,11 +358,17 @@ func (s *Sys) DoBatch(proc string, uid int, ops []Op, withCallback bool) error {
 }
 
 // Obs is what a reader shows through the public API.
+// DictEnt is one entry of a dictionary scan.
+type DictEnt struct {
+	T string `json:"t"`
+	N int    `json:"n"`
+}
+
 type Obs struct {
 	Count  int   `json:"count"`
 	Docs   []Doc `json:"docs"`   // match-all enumeration with stored fields
 	ByID   []Doc `json:"byid"`   // union of per-id term lookups
-	Tags   []Doc `json:"tags"`   // dictionary scan of field tag -> (id, uid)
+	Dict   []DictEnt `json:"dict"` // dictionary scan of field _id (deep observations only)
 	Sorted []Doc `json:"sorted"` // doc values: sorted by u
 	Err    string `json:"err"`
 }
@@ -404,7 +410,7 @@ func Observe(r *bluge.Reader, ids []string, deep bool) (o Obs) {
 			o.Err = fmt.Sprintf("panic: %v", p)
 		}
 	}()
-	o.Docs, o.ByID, o.Tags, o.Sorted = []Doc{}, []Doc{}, []Doc{}, []Doc{}
+	o.Docs, o.ByID, o.Dict, o.Sorted = []Doc{}, []Doc{}, []DictEnt{}, []Doc{}
 	n, err := r.Count()
 	if err != nil {
 		o.Err = err.Error()
@@ -455,6 +461,20 @@ func Observe(r *bluge.Reader, ids []string, deep bool) (o Obs) {
 			return
 		}
 		o.Sorted = append(o.Sorted, docOf(r, m.Number))
+	}
+	// dictionary scan of the identifier field (includes ids whose documents are only marked deleted)
+	di, err := r.DictionaryIterator("_id", nil, nil, nil)
+	if err != nil {
+		o.Err = err.Error()
+		return
+	}
+	defer di.Close()
+	for e, err := di.Next(); e != nil || err != nil; e, err = di.Next() {
+		if err != nil {
+			o.Err = err.Error()
+			return
+		}
+		o.Dict = append(o.Dict, DictEnt{T: e.Term(), N: int(e.Count())})
 	}
 	return
 }
